@@ -79,6 +79,21 @@ def run(ctx):
         ths = rng.sample(THRESHOLDS, 3 if quick else 6) + ["0", "1"]
         for th in ths:
             reqs.append((v, groups, th, rng.choice(["full", "hash", "none"])))
+    # thresholds equal to the binary64 quotient of a ratio that is not representable and rounds UP: the real ratio is below
+    # the threshold, the computed one is not (no band is granted to these requests: known finding)
+    adv = []
+    for idx, sym, width, ref in ITEMS:
+        if ref.denominator != 1:
+            continue
+        for val in (int(ref) + int(ref) // 10, 11 * int(ref) // 10 + 1, 17 * int(ref) // 10, 23 * int(ref) // 10 + 3):
+            ratio = Fraction(val) / ref
+            fl = Fraction(float(val) / float(ref))
+            if fl > ratio and val < 2**width - 1:
+                v = [0] * 22
+                v[idx] = val
+                adv.append((v, [], "%.80g" % (float(val) / float(ref)), "none"))
+    adv = adv[:6] if quick else adv
+    reqs += adv
     api_lines, mod_t, mod_l = [], [], []
     for v, groups, th, ns in reqs:
         g_api = ",".join("%s=%s=%s" % (vlib.hx(s.encode()), vlib.hx(n.encode()), "x" if c is None else c) for s, n, c in groups) or "-"
@@ -92,7 +107,8 @@ def run(ctx):
     mt = vlib.batch(ctx["modelrun"], mod_t)
     ml = vlib.batch(ctx["modelrun"], mod_l)
     by_vec = {}
-    stats = {"rows_total": 0, "no_problems": 0, "saturated_rows": 0}
+    adversarial = {api_lines[len(reqs) - len(adv) + k]: "threshold-within-one-ulp-of-ratio" for k in range(len(adv))}
+    stats = {"rows_total": 0, "no_problems": 0, "saturated_rows": 0, "adversarial_thresholds": len(adv)}
     for (v, groups, th, ns), a, t, lv, req in zip(reqs, api, mt, ml, api_lines):
         inp = {"request": req}
         parts = dict(p.split(":", 1) for p in a.split())
@@ -113,6 +129,7 @@ def run(ctx):
             n_, _, d_ = frac.partition("/")
             levels[sym] = Fraction(int(n_), int(d_))
         shown = 0
+        nband = 0
         for idx, sym, width, ref in ITEMS:
             val = v[idx]
             sat = val == 2**width - 1
@@ -131,12 +148,26 @@ def run(ctx):
             ratio = Fraction(val) / ref
             exp_vis = sat or ratio >= thr
             # the float quotient can differ from the exact one only within 2^-52 relative: skip the undecidable band
-            band = abs(ratio - thr) <= abs(ratio) / 2**50
+            band = abs(ratio - thr) <= abs(ratio) / 2**50 and req not in adversarial
             if not band:
                 shown += exp_vis
+            else:
+                nband += 1
+        for gsym, gname, gc in groups:
+            if gc is None:
+                continue
+            gratio = Fraction(gc, 25000)
+            if abs(gratio - thr) <= abs(gratio) / 2**50:
+                nband += 1
+            else:
+                shown += (gc == 2**32 - 1) or gratio >= thr
         nrows_items = len([l for l in rows if l.split("|")[2].strip() != ""])
-        if ("-v" == th) and False:
-            pass
+        # the judge, on exact rationals: a row per metric with value/reference >= threshold or saturated, and no other
+        if not (shown <= nrows_items <= shown + nband):
+            res.violations.append(vlib.Violation(
+                "the rows shown are not exactly the metrics with value/reference >= threshold (or saturated)", inp,
+                expected="%d rows (+ at most %d within 2^-50 of the threshold)" % (shown, nband), observed="%d rows" % nrows_items,
+                cls=adversarial.get(req)))
         if thr <= 0 and not tbl.startswith("No problems"):
             # verbose shows every metric
             want = len(ITEMS) + len([g for g in groups if g[2] is not None])
